@@ -141,11 +141,14 @@ def oracle(seq, lines, owns=0):
     ids_prev = []
     li = 0
     for step, op in enumerate(seq):
-        if li >= len(lines):
+        if li >= len(lines) or not lines[li].strip() or lines[li].startswith("CRASHED"):
             return "step %d (%s): implementation produced no output (crash)" % (step, op)
         if lines[li].startswith("CRASH"):
             return "step %d (%s): Delete(se) would dereference a null node" % (step, op)
-        d = parse_dump(lines[li])
+        try:
+            d = parse_dump(lines[li])
+        except (ValueError, IndexError):
+            return "step %d (%s): the harness' output breaks off (crash): %r" % (step, op, lines[li][:60])
         li += 1
         c = op[0]
         a = int(op[1:].split(":")[0]) if len(op) > 1 else 0
@@ -404,8 +407,7 @@ def main(tier, seed):
         "unproved_clauses": [],
     })
     res.assumptions = ["ids stay below 2^31-1 (C++ int); model ids are unbounded Z - at INT_MAX NextFileId() stays there (no fresh name is left), which the model does not follow",
-                       "operations respect the C++ preconditions (no use of destroyed instances; "
-                       "Delete(se) only for registered instances)"]
+                       "operations respect the C++ preconditions (no use of destroyed instances; an index below the count)"]
     return res.finish()
 
 
